@@ -65,7 +65,7 @@ func (n *Number) AddFrac(b byte) {
 	case n.Frac <= BigLimit:
 		n.Frac = n.Frac*10 + uint64(b-'0')
 		n.Div *= 10.0
-		if math.MaxInt64 < n.Frac {
+		if math.MaxInt64 < n.Frac || BigLimit <= n.Div {
 			n.FillBig()
 		}
 	default: // big
